@@ -589,9 +589,15 @@ class Union(Structure, metaclass=UnionMetaType):
         if self.__class__.dynamic:
             raise NotImplementedError("Modifying a dynamic union is not yet supported")
 
+        previous = self.__dict__.get(attr)
         super().__setattr__(attr, value)
         if attr in self.__class__.lookup:
-            self._rebuild(attr)
+            try:
+                self._rebuild(attr)
+            except Exception:
+                # The value can't be written: keep the member that matches the (unchanged) buffer
+                self.__dict__[attr] = previous
+                raise
         # Otherwise it's a field of an anonymous structure member, which is set through the proxy of that
         # member and has rebuilt the union already
 
